@@ -49,7 +49,10 @@ def main(tier, replay=None):
                   ("c17", "c17-lists", ["family=lists"]), ("c17", "c17-fields", ["family=fields"]), ("c17", "c17-senders", ["family=senders"]),
                   ("c11", "c11-cdbcut", ["family=cdbcut"]), ("c11", "c11-tables", ["family=tables"]),
                   ("local", "c13-instr", ["mode=c13", "family=instr"]), ("local", "c13-hdr", ["mode=c13", "family=hdr"]), ("local", "c13-select", ["mode=c13", "family=select"]),
-                  ("c18clean", "c18-clean-requests", [])]
+                  ("c18clean", "c18-clean-requests", []),
+                  ("remote", "qmail-remote-dns", ["family=dns"]), ("remote", "qmail-remote-connect", ["family=connect"]), ("remote", "qmail-remote-smtp", ["family=smtp", "maxrcpt=3"]),
+                  ("remote", "qmail-remote-messages", ["family=msg", "maxlen=5"]),
+                  ("c18spawn", "rspawn-ids", ["family=ids", "prog=rspawn"]), ("c18spawn", "lspawn-ids", ["family=ids", "prog=lspawn"]), ("c18spawn", "lspawn-multi", ["family=multi", "prog=lspawn"])]
         for scn, name, opts in reruns:
             vk_run(res, scn, src, rd, "0,0,0,0", 0, 1500, "asan-" + name, opts=opts)
         vk_run(res, "daemon", src, rd, "0,0,0,3", 3, 1500, "asan-qmail-send-reports", opts=["monitors=C04", "msgs=l1r1", "signals=0", "verdicts=KZDXF", "reorder=2"])
